@@ -155,3 +155,23 @@ package fasthttp
 //@   loop 1:
 //@     iter openDelta = 0; handed = false; answered = false; closed = 0; last = -1
 //@     atend[handed-or-refused] handed ? (openDelta == 1 && closed == 0) : (openDelta == 0 && answered && closed == 1 && last == StateClosed)
+
+// perIPConnCounter (C12): the per-address counts live in a map behind the lock. Register adds one to the count of its
+// address and returns the new count; Unregister takes one off (dropping the entry at zero); neither touches the count
+// of any other address, and the map is only read or written with the lock held.
+//@ monitor perIPConnCounter lock
+//@   protects m
+
+//@ func perIPConnCounter.Register results n
+//@   property C12
+//@   mode skeleton
+//@   nooverflow
+//@   ensures[counts-one-more] n == atlock(cc.m[ip]) + 1 && cc.m[ip] == n
+//@   ensures[others-untouched] forall k in [0, 4294967296): k != ip ==> cc.m[k] == atlock(cc.m[k])
+
+//@ func perIPConnCounter.Unregister
+//@   property C12
+//@   mode skeleton
+//@   nooverflow
+//@   ensures[counts-one-less] cc.m[ip] == (atlock(cc.m[ip]) > 1 ? atlock(cc.m[ip]) - 1 : 0)
+//@   ensures[others-untouched] forall k in [0, 4294967296): k != ip ==> cc.m[k] == atlock(cc.m[k])
